@@ -177,6 +177,10 @@ func (e *Env) encodeRules(l *facts.Level) {
 		c.Undecided("encode-emissions", who, pos, err.Error())
 		return
 	}
+	leaves, badRep := e.canonNames(l, leaves)
+	for _, why := range badRep {
+		c.Undecided("encode-emissions", who+" names representation", pos, why)
+	}
 	v3 := l.Version.Name == "v3"
 	recvNonNil := ir.Bin("!=", ir.Param(0), nilOf(l.Ptr()))
 	ge := l.Method("GetError")
